@@ -33,6 +33,18 @@ exactly at the end of one of its file-occupying members), `RoundTrip.segInside_n
 (`NestedDomain selE selN`: every segment is flat - `layoutDomB false false selE` - or nested - `layoutNestedB selN`)
 plus `NoWrap64` of the saved object.  `loaded_satisfies_Loaded_flat_input`: `NoWrap64` of the saved object replaced by
 the input-side `noWrap64InB o hd` (a Bool function of the input that runs the layout; `Compose.noWrap64_of_input`).
+PARTIAL - FINDING F17 (open): the image-byte theorems speak of the DECLARED members of a segment.  For an object that
+comes from `load` a thread-local data section (`.tdata`, SHF_TLS) that lies inside a PT_LOAD is no member of it -
+elfio::load_segments' clause "If it is a TLS segment, add TLS sections only and vice versa" - so the next save lays it out
+elsewhere and the PT_LOAD's image holds zeros at its address (tests/elf_examples/x86_64_static: the 0x20 bytes of .tdata
+at 0x4bd0c0 are gone from PT_LOAD #3's image).  The composition theorems exclude this trigger exactly by the TLS clause of
+`Compose.MemberDomain` ("members carry SHF_TLS exactly if the segment is a PT_TLS"; Props/Compose2.lean).  Machine-checked
+witness (Props/F17.lean, kernel evaluation of the model on an object built with its API): `F17.image_bytes_tls_witness`
+(before: the PT_LOAD's image holds .tdata's bytes at 0x400008; after load + save: same segment type/address/sizes, the
+section still claims the address and has its bytes, the image holds zeros there), `F17.tls_witness_outside_MemberDomain`,
+`F17.tls_witness_domain_otherwise` (every other hypothesis of save_load_save_flat holds of the witness).  Registered in
+known_findings.json (`c05:image-bytes:tls-in-load`, corpus/c05/f17-tls-image-lost.case); not repaired: the membership rule
+is the one property C02 states, a writer-side repair is not small.
 Only covered by correspondence/oracle: `Loaded` for the re-saved form of a LOADED (not created) object with
 nested segments, equality (not only >=) of reloaded memory sizes, ELF32 equidistance.
 Correspondence: family load.  Oracle: object 0 loads the image and is
@@ -41,8 +53,15 @@ string / symbol / note through the accessors' underlying append), saved and relo
 observed again: every untouched section must keep name, type, flags, address, size, link, info,
 alignment, entry size and data; every segment type, flags, vaddr, paddr, memsz; and for every member
 of a PT_LOAD: vaddr_seg + (offset_sec - offset_seg) == addr_sec (image bytes at the same address).
-Images: linker-like images from the independent encoder (tools/elfspec.linked_model) and the bundled
-examples (executables, shared objects, relocatables, kernel module; ARM/PPC/x86).
+`image_bytes` follows the property text on the two FILES, independently of what the loader reports: for every PT_LOAD
+of the original image and every allocated, file-occupying, non-empty section of the original image inside the
+segment's file-backed address range [p_vaddr, p_vaddr + p_filesz) - with or without SHF_TLS - the re-saved file's
+PT_LOAD of the same index holds the section's bytes at the same virtual address (signature `image-bytes`; caused by an
+SHF_TLS section: `c05:image-bytes:tls-in-load` = F17).
+Images: linker-like images from the independent encoder (tools/elfspec.linked_model), the same with a `.tdata` inside
+a PT_LOAD with / without a PT_TLS over it (`tls=`), and the bundled examples (executables, shared objects,
+relocatables, kernel module; ARM/PPC/x86; quick tier: those up to 40000 bytes plus x86_64_static, the only one with
+a .tdata - F17's real-world witness).
 """
 from families.writercommon import *
 from families.loadcommon import observe_lines, counts
@@ -68,11 +87,15 @@ THEOREMS = ["ElfioVerif.C05.save_writes_fields",
             "ElfioVerif.RoundTrip.segInside_nested",
             "ElfioVerif.RoundTrip.savedSane_mixed",
             "ElfioVerif.Compose.loaded_satisfies_Loaded_nested",
-            "ElfioVerif.Compose.loaded_satisfies_Loaded_flat_input"]
-EXTRA_IMPORTS = ["ElfioVerif.Props.Compose", "ElfioVerif.Props.Compose2"]
+            "ElfioVerif.Compose.loaded_satisfies_Loaded_flat_input",
+            "ElfioVerif.F17.image_bytes_tls_witness",
+            "ElfioVerif.F17.tls_witness_outside_MemberDomain",
+            "ElfioVerif.F17.tls_witness_domain_otherwise"]
+EXTRA_IMPORTS = ["ElfioVerif.Props.Compose", "ElfioVerif.Props.Compose2", "ElfioVerif.Props.F17"]
 SITES = ["save_", "lsws", "lst_", "lseg", "wsd", "load_s", "sec32_load", "sec64_load"]
 RULE = ("well-formed images whose segment contents are covered by sections (encoder-built linker-like images in 4 "
-        "configurations; bundled examples that load) x edit histories {none, add section, append to an unsegmented "
+        "configurations, some with a thread-local data section inside a PT_LOAD with/without PT_TLS; bundled examples "
+        "that load) x edit histories {none, add section, append to an unsegmented "
         "section, append to .shstrtab-like string table} x reload {eager, lazy}; non-trivial = the image has >= 1 "
         "segment with members or >= 4 sections; distinct by md5")
 ASSUMPTIONS = ["the image's segments are covered by sections in ascending address order (RoundTrippable)"]
@@ -93,7 +116,8 @@ def mk(cid, img, rng, edit, meta):
         lines.append(f"addsec name={hx(b'.added')} type=1 flags=0 align=4 data={hx(rnd_bytes(rng, 13))}")
     elif edit == "append" and d:
         loose = [i for i, s in enumerate(d["sections"]) if i and s["data"] is not None and s["sh_type"] not in (0, 8)
-                 and not any(i in g["members"] for g in d["segments"]) and i != d["ehdr"]["e_shstrndx"]]
+                 and not any(i in g["members"] for g in d["segments"]) and i != d["ehdr"]["e_shstrndx"]
+                 and not s["sh_flags"] & elfspec.SHF_TLS]     # a .tdata inside a PT_LOAD is a member of no segment by the rule
         if loose:
             i = rng.choice(loose); touched.append(i)
             lines.append(f"secedit {i} app {hx(rnd_bytes(rng, rng.choice([1, 8, 24])))}")
@@ -112,6 +136,21 @@ def gen_cases(rng, tier):
         if elfspec.wellformed(b):
             for e in (["none", "addsec"] if tier == "quick" else ["none", "addsec", "append"]):
                 yield mk(f"ex-{f}-{e}", b, rng, e, {"src": "example", "example": f})
+    if tier == "quick":
+        # the real-world witness of F17 (the model takes ~7 s on its 798 KB; once, unedited; thorough: loop above;
+        # not last: the evidence samples the last cases)
+        for f, b in examples():
+            if f == "x86_64_static" and elfspec.wellformed(b):
+                yield mk(f"ex-{f}-none", b, rng, "none", {"src": "example", "example": f})
+    # thread-local data inside a PT_LOAD (with and without a PT_TLS over it): the trigger of finding F17.
+    # The only bundled example with a `.tdata` is x86_64_static (798 KB: both tiers, above).
+    for i in range(8 if tier == "quick" else 80):
+        cls, enc = CFGS[i % 4]
+        for _ in range(20):
+            m = elfspec.linked_model(rng, cls, enc, tls=("seg", "noseg")[(i // 4) % 2])
+            if any(s["sh_flags"] & elfspec.SHF_TLS for s in m.sections):
+                break
+        yield mk(f"tls{i}", elfspec.encode(m), rng, rng.choice(["none", "none", "addsec", "append"]), {"src": "encoder-tls"})
 
 
 SEC_KEEP = ["name", "type", "flags", "addr", "size", "link", "info", "align", "entsize", "data"]
@@ -163,7 +202,58 @@ def oracle(case, out):
                             v.append({"signature": "image-address", "what": f"`{ln}`: section {m} is no longer found at its virtual address in the segment's image"})
         if v:
             break
-    return v[:2]
+    v = v[:2]
+    for w in image_bytes(case, out[si]):
+        if all(w["signature"] != x["signature"] for x in v):
+            v.append(w)
+    return v
+
+
+def image_bytes(case, save_line):
+    """The property text, on the two FILES (decoded by tools/elfspec.py; nothing the loader reports is used):
+    for every PT_LOAD of the original image and every section of the original image that is allocated, occupies
+    the file, is not empty and lies inside the segment's file-backed address range [p_vaddr, p_vaddr + p_filesz) at
+    the position its address says (so the bytes of the memory image there are the section's) - whether or not it
+    carries SHF_TLS - the re-saved file's PT_LOAD with the same index holds the section's bytes at the same virtual
+    address.  A loss caused by an SHF_TLS section has the signature of finding F17."""
+    try:
+        orig = bytes.fromhex(case["lines"][1].split()[1])
+    except (IndexError, ValueError):
+        return []
+    ok, new = saved_bytes(save_line)
+    d0 = elfspec.decode(orig)
+    if not ok or d0 is None:
+        return []
+    d1 = elfspec.decode(new)
+    if d1 is None:
+        return [{"signature": "resaved-undecodable", "what": "the re-saved file is not a decodable ELF image"}]
+    v = []
+    for j, g in enumerate(d0["segments"]):
+        if g["p_type"] != elfspec.PT_LOAD:
+            continue
+        for i, s in enumerate(d0["sections"]):
+            if not (s["sh_flags"] & elfspec.SHF_ALLOC) or not elfspec.occupies_file(s["sh_type"]) or not s["sh_size"] \
+                    or i in case["meta"]["touched"]:
+                continue
+            if not (g["p_vaddr"] <= s["sh_addr"] and s["sh_addr"] + s["sh_size"] <= g["p_vaddr"] + g["p_filesz"]):
+                continue
+            if s["sh_offset"] - g["p_offset"] != s["sh_addr"] - g["p_vaddr"] or len(s["data"]) != s["sh_size"]:
+                continue        # the image bytes at that address did not come from this section
+            h = d1["segments"][j] if j < len(d1["segments"]) else None
+            got = None
+            if h is not None and h["p_type"] == elfspec.PT_LOAD and h["p_vaddr"] <= s["sh_addr"]:
+                a = s["sh_addr"] - h["p_vaddr"]
+                if a + s["sh_size"] <= h["p_filesz"]:
+                    got = new[h["p_offset"] + a:h["p_offset"] + a + s["sh_size"]]
+            if got != s["data"]:
+                tls = (s["sh_flags"] & elfspec.SHF_TLS) == elfspec.SHF_TLS
+                what = (f"PT_LOAD {j}: the {s['sh_size']} bytes of section {i} ({(s['name'] or b'?').decode('latin-1')}) at virtual address "
+                        f"{s['sh_addr']:#x} are no longer in the segment's image after load + save"
+                        + (f" (found {got[:16].hex()}{'..' if len(got) > 16 else ''})" if got is not None else " (outside the segment's file range)"))
+                sig = "c05:image-bytes:tls-in-load" if tls else "image-bytes"
+                if all(x["signature"] != sig for x in v):
+                    v.append({"signature": sig, "what": what + (" - an SHF_TLS section inside a PT_LOAD (F17)" if tls else "")})
+    return v
 
 
 def nontrivial(case, out):
